@@ -28,7 +28,7 @@ use crate::{
 
 pub const PROMPTS: &[&str] = &["$ ", "", "ж> ", "> ", "dev:~# ", "中"];
 
-type TestCli = Cli<Sink, SinkError, &'static mut [u8], &'static mut [u8]>;
+pub type TestCli = Cli<Sink, SinkError, &'static mut [u8], &'static mut [u8]>;
 
 #[derive(Clone, Debug, Default)]
 pub struct Chunk {
@@ -110,7 +110,7 @@ fn fail_json(at: usize, mode: FailMode) -> Value {
 }
 
 /// Perform scripted output through the library's `Writer`
-fn perform(writer: &mut Writer<'_, Sink, SinkError>, chunks: &[Chunk]) -> Result<(), SinkError> {
+pub fn perform(writer: &mut Writer<'_, Sink, SinkError>, chunks: &[Chunk]) -> Result<(), SinkError> {
     for c in chunks {
         let text = std::str::from_utf8(&c.t).expect("script text must be UTF-8");
         match c.m.as_str() {
